@@ -533,3 +533,199 @@ Lemma bars_processed_of_bool initial ops :
   bars_processed_from (init_st initial) ops = true -> bars_processed initial ops.
 Proof. intros H pre p w b post E. exact (bars_processed_from_spec ops _ pre p w b post H E). Qed.
 End Hist.
+
+(* ---------------------------------------------------------------------------------------------- *)
+(* Without the premise on the bars.  An operation that aborts half-way with an internal error leaves the reservations
+   with open orders too, because the only step between "the record says closed" and "the reservation is deleted" is the
+   release of the holds, and in a state that satisfies the invariants of CancelProofs.v a release cannot be refused.  The
+   failing paths are followed to the state they stop in: either the invariant holds there, or the operation stopped at
+   a refused release -- which is impossible in a reachable state. *)
+Definition bad_release (c : cfg) (s : st) : Prop :=
+  exists o e, is_open o = false /\ update_balances c s o [] = Fail s e.
+
+Lemma release_succeeds c s o :
+  cancel_inv s -> is_open o = false -> exists s2, update_balances c s o [] = Done s2 tt.
+Proof.
+  intros (Hw & (Hr & _ & Hnh & Hnb) & Hh & Hrn) Hop. unfold update_balances. rewrite Hop.
+  set (oh := holds_get (s_holds s) (o_id o)).
+  destruct (vnonempty oh) eqn:Ene; cbn [vnonempty orb].
+  - assert (Ev : vnonempty (vneg oh) = true) by (destruct oh; [discriminate Ene | reflexivity]).
+    rewrite Ev. unfold upd_acct.
+    destruct (release_update_ok c s (s_acct s) oh Hr Hnh Hnb) as [a' Ea].
+    + intros x. apply res_ok_vsum. apply (Hrn (o_id o) oh). apply holds_get_in. exact Ene.
+    + intros x. rewrite (Hh x). unfold hsum. apply hsum_ge_entry; [exact Hrn | exact Ene].
+    + rewrite Ea. cbn [obind]. eexists. reflexivity.
+  - cbn [obind]. eexists. reflexivity.
+Qed.
+
+Lemma no_bad_release c s : cancel_inv s -> ~ bad_release c s.
+Proof.
+  intros Hc (o & e & Hop & Hf). destruct (release_succeeds c s o Hc Hop) as [s2 E]. rewrite E in Hf. discriminate Hf.
+Qed.
+
+Definition HOB (c : cfg) (s : st) : Prop := HOI s \/ bad_release c s.
+
+Lemma HOB_order_closed c s o s' e :
+  get_order s (o_id o) = Some o -> is_open o = false -> order_closed c s o = Fail s' e ->
+  HOX (Some (o_id o)) s -> HOB c s'.
+Proof.
+  intros Hg Hop H Hx. unfold order_closed in H.
+  destruct (update_balances c s o []) as [s1 u1|s1 e1] eqn:Eu; cbn [obind] in H.
+  - pose proof (HOX_release c s o s1 u1 Hop Eu Hx) as H1.
+    destruct (o_ar o && negb (Qzero (filled o))); [|discriminate H].
+    unfold repay_loans in H.
+    destruct (check_infos c s1 (s_loans s1)) as [u2|e2]; cbn [lift obind] in H; [|inversion H; subst; left; exact H1].
+    match type of H with obind (repay_each c s1 ?ids []) _ = _ =>
+      pose proof (kb_repay_each (s_orders s1) (s_holds s1) c ids s1 [] (Kb_refl s1)) as K2;
+      destruct (repay_each c s1 ids []) as [s2 ids2|s2 e3] end; cbn [obind] in H; [discriminate H|].
+    unfold kb in K2. cbn [sof] in K2. inversion H; subst. left. exact (HOX_of_kb None s1 _ K2 H1).
+  - inversion H; subst. pose proof (update_balances_fail _ _ _ _ _ _ Eu) as Es. subst s'.
+    right. exists o, e. split; [exact Hop | exact Eu].
+Qed.
+
+Lemma HOB_close_as c s o w s' e :
+  (o_id o < length (s_orders s))%nat ->
+  obind (order_closed c (put_order s (with_state o SCanceled)) (with_state o SCanceled))
+        (fun s o2 => Done (push_update s o2 w) tt) = Fail s' e ->
+  HOI s -> HOB c s'.
+Proof.
+  intros Hl H Hi. set (o1 := with_state o SCanceled) in *.
+  assert (Hg : get_order (put_order s o1) (o_id o1) = Some o1) by (apply get_put; exact Hl).
+  destruct (order_closed c (put_order s o1) o1) as [s2 o2|s2 e2] eqn:Ec; cbn [obind] in H; [discriminate H|].
+  inversion H; subst. apply (HOB_order_closed c (put_order s o1) o1 s' e Hg eq_refl Ec). apply HOX_put_closed. exact Hi.
+Qed.
+
+Lemma HOB_order_not_filled c s o when s' e :
+  (o_id o < length (s_orders s))%nat -> order_not_filled c s o when = Fail s' e -> HOI s -> HOB c s'.
+Proof.
+  intros Hl H Hi. unfold order_not_filled in H.
+  destruct (o_kind o); try discriminate H;
+    (destruct (negb (is_open o)); [inversion H; subst; left; exact Hi|]; cbn zeta in H;
+     exact (HOB_close_as c s o (Some when) s' e Hl H Hi)).
+Qed.
+
+Lemma HOB_process_order c s l o p when b s' e :
+  get_order s (o_id o) = Some o -> is_open o = true ->
+  process_order c s l o p when b = Fail s' e -> HOI s -> HOB c s'.
+Proof.
+  intros Hg Hop H Hi. unfold process_order in H.
+  assert (Hl : (o_id o < length (s_orders s))%nat)
+    by (apply nth_error_Some; unfold get_order in Hg; rewrite Hg; discriminate).
+  destruct (balance_updates c l o b) as [[u hit]|ebu]; cbn [lift obind] in H; [|inversion H; subst; left; exact Hi].
+  set (o1 := with_hit o hit) in *. set (s1 := put_order s o1) in *.
+  assert (H1 : HOI s1) by (apply (HOX_put_same None s o1 o Hg eq_refl Hi)).
+  assert (Hl1 : (o_id o1 < length (s_orders s1))%nat) by (unfold s1; rewrite length_put; exact Hl).
+  assert (Hg1 : get_order s1 (o_id o1) = Some o1) by (apply (get_put s o1); exact Hl).
+  destruct (get_pair_info c (o_pair o1)) as [pi|epi]; cbn [lift obind] in H; [|inversion H; subst; left; exact H1].
+  assert (NF : forall s2, s_orders s2 = s_orders s1 -> HOI s2 ->
+                obind (order_not_filled c s2 o1 when) (fun s _ => Done s l) = Fail s' e -> HOB c s').
+  { intros s2 E2 I2 X. destruct (order_not_filled c s2 o1 when) as [s3 u3|s3 e3] eqn:En; cbn [obind] in X; [discriminate X|].
+    inversion X; subst. apply (HOB_order_not_filled c s2 o1 when s' e); [rewrite E2; exact Hl1 | exact En | exact I2]. }
+  destruct (match u with Some (bv, qv) => round_bu pi (Some bv) (Some qv) | None => (None, None) end) as [rb rq].
+  destruct rb as [bv|]; [destruct rq as [qv|]|]; try (apply (NF s1 eq_refl H1); exact H).
+  destruct (calc_fee c (snd pi) o1 qv) as [fee|ef]; cbn [lift obind] in H; [|inversion H; subst; left; exact H1].
+  match type of H with (match update_balances c s1 o1 ?f with _ => _ end) = _ =>
+    destruct (update_balances c s1 o1 f) as [s2 u2|s2 e2] eqn:Eu end.
+  - destruct (update_balances_orders c s1 o1 _ s2 u2 Eu) as [Eo2 _].
+    pose proof (HOX_update_open c s1 o1 _ s2 u2 None Hop Eu H1) as H2.
+    destruct (take_liquidity l (Qabsq bv)) as [l2|el]; cbn [lift obind] in H; [|inversion H; subst; left; exact H2].
+    set (o2 := add_fill o1 when bv qv (match fee with Some f => f | None => 0 end)) in *.
+    assert (Hl2 : (o_id o2 < length (s_orders s2))%nat) by (rewrite Eo2; exact Hl1).
+    destruct (is_open o2) eqn:Eo; [cbn [obind] in H; discriminate H|].
+    assert (Hg3 : get_order (put_order s2 o2) (o_id o2) = Some o2) by (apply get_put; exact Hl2).
+    destruct (order_closed c (put_order s2 o2) o2) as [s4 o4|s4 e4] eqn:Ec; cbn [obind] in H; [discriminate H|].
+    inversion H; subst.
+    apply (HOB_order_closed c (put_order s2 o2) o2 s' e Hg3 Eo Ec). apply HOX_put_closed. exact H2.
+  - pose proof (update_balances_fail _ _ _ _ _ _ Eu) as Es. subst s2.
+    destruct e2; try (inversion H; subst; left; exact H1). apply (NF s1 eq_refl H1). exact H.
+Qed.
+
+Section Hist2.
+Variable c : cfg.
+
+Lemma HOB_process_all ids p when b : forall s l s' e,
+  WF s -> liq_ok l -> process_all c s l ids p when b = Fail s' e -> HOI s -> HOB c s'.
+Proof.
+  induction ids as [|h r IH]; intros s l s' e Hw Hl H Hi; cbn [process_all] in H; [discriminate H|].
+  destruct (get_order s h) as [oh|] eqn:Eg; [|exact (IH s l s' e Hw Hl H Hi)].
+  destruct (is_open oh && pair_eqb (o_pair oh) p) eqn:Eop; [|exact (IH s l s' e Hw Hl H Hi)].
+  assert (Eid : o_id oh = h) by (destruct Hw as (Ho & _); destruct (Ho _ _ Eg); assumption).
+  assert (Hg : get_order s (o_id oh) = Some oh) by (rewrite Eid; exact Eg).
+  apply andb_true_iff in Eop. destruct Eop as [Hopn _].
+  assert (Hwo : was_open s (o_id oh)).
+  { intros x Hx. unfold get_order in Hg. rewrite Hg in Hx. inversion Hx; subst. exact Hopn. }
+  destruct (rp_process_order c s s l oh p when b (R_of_WF c s Hw) Hg Hwo Hl) as [R1 L1].
+  destruct (process_order c s l oh p when b) as [s1 l1|s1 e1] eqn:Ep; cbn [obind sof] in *.
+  - destruct R1 as (W1 & _).
+    apply (IH s1 l1 s' e W1 L1 H). exact (HOI_process_order c s l oh p when b s1 l1 Hg Hopn Ep Hi).
+  - inversion H; subst. exact (HOB_process_order c s l oh p when b s' e Hg Hopn Ep Hi).
+Qed.
+
+Lemma HOB_on_bar s p when b s' e :
+  cfg_ok c -> 0 <= b_volume b -> WF s -> on_bar c s p when b = Fail s' e -> HOI s -> HOB c s'.
+Proof.
+  intros Hc Hv Hw H Hi. unfold on_bar, bump_reindex in H.
+  set (s1 := set_open_idx (set_close_now s (set_pair (s_close s) p (b_close b)) (Some when))
+                          (s_open_idx (set_close_now s (set_pair (s_close s) p (b_close b)) (Some when)))
+                          (S (s_reidx (set_close_now s (set_pair (s_close s) p (b_close b)) (Some when))))) in *.
+  assert (W1 : WF s1) by exact Hw.
+  assert (I1 : HOI s1) by (apply (HOX_same None s s1); [reflexivity | reflexivity | exact Hi]).
+  match type of H with obind (process_all c s1 ?l0 ?ids p when b) _ = _ =>
+    assert (L0 : liq_ok l0); [|destruct (process_all c s1 l0 ids p when b) as [s2 l2|s2 e2] eqn:Epa] end.
+  { unfold cfg_ok in Hc. destruct (c_liq c) as [|lp ip]; [exact I|]. cbn [liq_ok].
+    split; [lra|]. apply Qmult_le_0_compat; [exact Hv|]. apply Qle_shift_div_l; lra. }
+  - cbn [obind] in H. discriminate H.
+  - cbn [obind] in H. inversion H; subst. exact (HOB_process_all _ p when b s1 _ s' e W1 L0 Epa I1).
+Qed.
+
+(* every history *)
+Theorem reservations_belong_to_open_orders_always initial ops :
+  cfg_ok c -> ops_ok ops -> NoDup (map fst initial) -> (forall kv, In kv initial -> 0 <= snd kv) ->
+  HOI (run c (init_st initial) ops).
+Proof.
+  intros Hc. induction ops as [|o pre IH] using rev_ind; intros Ho Hnd Hpos.
+  - split; [constructor | intros k m []].
+  - pose proof (reachable_cancel_inv c initial (pre ++ [o]) Hc Ho Hnd Hpos) as Hci.
+    apply Forall_app in Ho. destruct Ho as [Hpre Ho1]. inversion Ho1 as [|? ? Hoo _]; subst.
+    specialize (IH Hpre Hnd Hpos). rewrite run_snoc in *.
+    set (s := run c (init_st initial) pre) in *.
+    assert (Hw : WF s) by (apply (run_prims c pre (init_st initial) Hc Hpre (WF_init initial))).
+    destruct o as [p w b|k opr p amount ab ar|id|x a|id|pp]; cbn [step] in *.
+    + destruct (on_bar c s p w b) as [s' u|s' e] eqn:Eb; cbn [snd fst] in *.
+      * cbn [op_ok] in Hoo. exact (HOI_on_bar c s p w b s' u Hc Hoo Hw Eb IH).
+      * cbn [op_ok] in Hoo. destruct (HOB_on_bar s p w b s' e Hc Hoo Hw Eb IH) as [X|X]; [exact X|].
+        exfalso. exact (no_bad_release c s' Hci X).
+    + pose proof (HOI_create_order c s k opr p amount ab ar Hw IH) as X.
+      destruct (create_order c s k opr p amount ab ar); exact X.
+    + destruct (cancel_order c s id) as [s' u|s' e] eqn:Ec; cbn [fst].
+      * exact (HOI_cancel c s id s' u Hw Ec IH).
+      * rewrite (cancel_fail_unchanged_reachable c initial pre id s' e Hc Hpre Hnd Hpos Ec). exact IH.
+    + pose proof (kb_create_loan (s_orders s) (s_holds s) c s x a (Kb_refl s)) as X.
+      destruct (create_loan c s x a); cbn [fst]; exact (HOX_of_kb None s _ X IH).
+    + pose proof (kb_repay_loan (s_orders s) (s_holds s) c s id (Kb_refl s)) as X.
+      destruct (repay_loan c s id); cbn [fst]; exact (HOX_of_kb None s _ X IH).
+    + destruct (list_open s pp) as [s' ids] eqn:El. cbn [fst].
+      unfold list_open, bump_reindex, finish_reindex in El.
+      match type of El with context [if ?f then _ else _] => destruct f end; inversion El; subst s';
+        apply (HOX_same None s); try reflexivity; exact IH.
+Qed.
+
+(* C06: whenever no order is open nothing is reserved and nothing is on hold -- in every reachable state *)
+Theorem nothing_on_hold_when_no_order_is_open_always initial ops x :
+  cfg_ok c -> ops_ok ops -> NoDup (map fst initial) -> (forall kv, In kv initial -> 0 <= snd kv) ->
+  let s := run c (init_st initial) ops in
+  (forall i o, nth_error (s_orders s) i = Some o -> is_open o = false) ->
+  s_holds s = [] /\ vget (hold (s_acct s)) x == 0.
+Proof.
+  intros Hc Ho Hnd Hpos s Hall.
+  destruct (reservations_belong_to_open_orders_always initial ops Hc Ho Hnd Hpos) as [_ Hi]. fold s in Hi.
+  assert (E : s_holds s = []).
+  { destruct (s_holds s) as [|[k m] r] eqn:Eh; [reflexivity|]. exfalso.
+    destruct (Hi k m (or_introl eq_refl)) as [_ [B|B]]; [discriminate B|].
+    unfold still_open, get_order in B. destruct (nth_error (s_orders s) k) as [o|] eqn:En; [|discriminate B].
+    rewrite (Hall k o En) in B. discriminate B. }
+  split; [exact E|].
+  pose proof (holds_reachable c initial ops x Hc Ho Hpos) as Hh. cbv zeta in Hh. fold s in Hh.
+  rewrite Hh. unfold hsum. rewrite E. reflexivity.
+Qed.
+End Hist2.
